@@ -273,6 +273,11 @@ func runCheck(repo, verif, prop, tier, only string, verbose, writeEvidence bool)
 		}
 	}
 	sort.Strings(undecided)
+	for _, u := range undecided {
+		if strings.HasPrefix(u, "contract error") {
+			fmt.Fprintln(os.Stderr, "note: "+u)
+		}
+	}
 	replayDir := filepath.Join(verif, "out", "replay")
 	os.MkdirAll(replayDir, 0o755)
 	if olds, _ := filepath.Glob(filepath.Join(replayDir, prop+"-*.json")); len(olds) > 0 {
